@@ -31,7 +31,7 @@ from asl.cfg import Node, cfg_of
 from asl.flow import reaching
 from asl.loader import AnalysisError, Unit, norm, own_nodes
 from asl.values import USERISH, atoms_deep
-from .common import real_units
+from .common import real_units, raised_class
 
 LEVEL = {
     "decided": "C02 (necessary clauses): (R02.1) min/max replace the incumbent only on a strict comparison in the "
@@ -393,14 +393,23 @@ def r02_4(ctx) -> None:
             ok = ("self.key < other.key" in text and "other.key < self.key" in text and "not" in text) or \
                 "self.key == other.key" in text
             ctx.check(ok, "R02.4", eq, "__eq__", "equality of wrappers is equality of the wrapped keys (derived from < or ==)")
-    # strict replacement test
+    # strict replacement test: `<root key> < <new key>` (or the mirrored `>`), nothing weaker
     tests = [n for n in own_nodes(node) if isinstance(n, ast.If) and any(
         isinstance(c, ast.Call) and norm(c.func).endswith("heapreplace") for b in n.body for c in ast.walk(b))]
-    ok = len(tests) == 1 and isinstance(tests[0].test, ast.Compare) and len(tests[0].test.ops) == 1 and (
-        (isinstance(tests[0].test.ops[0], ast.Lt) and "worst" in norm(tests[0].test.left)) or
-        (isinstance(tests[0].test.ops[0], ast.Gt) and "worst" in norm(tests[0].test.comparators[0])))
+    root_names = set()
+    for s_ in own_nodes(node):
+        if isinstance(s_, ast.Assign) and isinstance(s_.value, ast.Subscript) and isinstance(s_.value.value, ast.Subscript) \
+                and norm(s_.value.slice) == "0" and norm(s_.value.value.slice) == "0":
+            root_names |= {t.id for t in s_.targets if isinstance(t, ast.Name)}
+    ok = len(tests) == 1 and isinstance(tests[0].test, ast.Compare) and len(tests[0].test.ops) == 1
+    if ok:
+        c = tests[0].test
+        left, right = norm(c.left), norm(c.comparators[0])
+        ok = (isinstance(c.ops[0], ast.Lt) and left in root_names and right not in root_names) or \
+             (isinstance(c.ops[0], ast.Gt) and right in root_names and left not in root_names)
     ctx.check(ok, "R02.4", u, tests[0].test if tests else "_largest",
-              "a new item replaces the current worst only if it is strictly better (ties keep the earlier item)")
+              "a new item replaces the current worst only if it is strictly better (ties keep the earlier item)",
+              witness=f"heap-root key names: {sorted(root_names)}")
     # directions of the two public functions
     for name, want in (("heapq.nlargest", "False"), ("heapq.nsmallest", "True")):
         pu = ctx.unit(name)
@@ -446,7 +455,7 @@ def r02_6(ctx) -> None:
     for short, cls in table.items():
         u = ctx.unit(short)
         raises = [n for n in own_nodes(u.node) if isinstance(n, ast.Raise) and n.exc is not None]
-        names = [norm(r.exc.func) if isinstance(r.exc, ast.Call) else norm(r.exc) for r in raises]
+        names = [raised_class(ctx, u, r) for r in raises]
         ctx.check(names == [cls], "R02.6", u, raises[0] if raises else short,
                   f"empty input without default/initial raises {cls} like the builtin", witness=str(names))
     u = ctx.unit("functools.reduce")
@@ -462,6 +471,28 @@ def r02_6(ctx) -> None:
                 if isinstance(c, ast.Call) and len(c.args) == 2 and isinstance(tgt, ast.Name):
                     ok = norm(c.args[0]) == tgt.id and norm(c.args[1]) == item
     ctx.check(ok, "R02.6", u, "reduce", "reduce folds function(accumulator, item) in that order, re-binding the accumulator")
-    seeds = [n for n in own_nodes(u.node) if isinstance(n, ast.IfExp) and "initial" in norm(n.test)]
-    ok = len(seeds) == 1 and norm(seeds[0].body) == "initial" and isinstance(seeds[0].orelse, ast.Await)
-    ctx.check(ok, "R02.6", u, seeds[0] if seeds else "reduce", "the seed is the initial value if given, otherwise the first item")
+    # the seed: the accumulator's definitions before the loop are exactly {initial, first item}
+    acc = None
+    for loop in loops:
+        for s_ in cfg.nodes:
+            if s_.kind == "store" and s_.in_region("loop", loop.ast) and isinstance(s_.info.get("value"), ast.Await) \
+                    and isinstance(s_.info["targets"][0], ast.Name):
+                acc = s_.info["targets"][0].id
+    seeds = set()
+    initial = [p for p in u.param_names() if p == "initial"]
+    if acc is not None:
+        for s_ in cfg.nodes:
+            if s_.kind == "store" and not s_.tag and not any(k == "loop" for (k, _a) in s_.regions) \
+                    and any(isinstance(t, ast.Name) and t.id == acc for t in s_.info.get("targets", [])):
+                v = s_.info.get("value")
+                for part in ([v.body, v.orelse] if isinstance(v, ast.IfExp) else [v]):
+                    if isinstance(part, ast.Name) and part.id in initial:
+                        seeds.add("initial")
+                    elif isinstance(part, ast.Await) and "anext" in norm(part):
+                        seeds.add("first item")
+                    else:
+                        seeds.add(norm(part))
+    tests = [n for n in cfg.nodes if n.kind == "branch" and isinstance(n.ast, ast.Compare) and "initial" in norm(n.ast)
+             and isinstance(n.ast.ops[0], (ast.Is, ast.IsNot))]
+    ctx.check(seeds == {"initial", "first item"} and bool(tests), "R02.6", u, "reduce",
+              "the seed is the initial value if given, otherwise the first item", witness=str(sorted(seeds)))
